@@ -26,8 +26,8 @@ var propSpecs = []PropSpec{
 	},
 	{
 		ID:          "C02",
-		Rules:       []string{"C02.MAP", "C02.SORT", "C02.GO", "C02.FIRST", "C02.CHAN", "C02.SRC"},
-		Explanation: "Decides that no hash-map iteration order can reach message text, the relative order of diagnostics that tie on (file,line,col), outer state, output or returned values (C02.MAP); that each file's diagnostics are stably sorted before being returned and never unstably sorted (C02.SORT); that goroutines of a multi-file run write only their own slot, never the output, and printing happens after eg.Wait() in argument order (C02.GO).",
+		Rules:       []string{"C02.MAP", "C02.SORT", "C02.GO", "C02.FIRST", "C02.CHAN", "C02.SRC", "C02.FRESHCACHE"},
+		Explanation: "Decides that no hash-map iteration order can reach message text, the relative order of diagnostics that tie on (file,line,col), outer state, output or returned values (C02.MAP); that each file's diagnostics are stably sorted before being returned and never unstably sorted (C02.SORT); that goroutines of a multi-file run write only their own slot, never the output, and printing happens after eg.Wait() in argument order (C02.GO). (FRESHCACHE) the metadata caches handed to (*Linter).check are created for the call (or by a factory created in the call) and the Linter type has no cache field; (SRC) clock and process-specific values only feed the debug log.",
 		NotDecided:  "that distinct AST nodes really have distinct positions; determinism of third-party libraries",
 		Assumptions: commonAssumptions,
 	},
@@ -48,7 +48,7 @@ var propSpecs = []PropSpec{
 	{
 		ID:          "C08",
 		Rules:       []string{"C08.KEYW", "C08.KEYR", "C08.FIELD", "C13.CASEARG", "C08.SELFKEY"},
-		Explanation: "Decides a two-point lattice (lower-case / unknown) on strings: every key stored into (KEYW) or used to look up (KEYR) a map whose keys are case-insensitive names (26 map types: ObjectType.Props, context and function tables, AST maps, action/workflow metadata, untrusted-input tree, job graph) is provably lower-case - a constant equal to its lower-casing, a strings.ToLower result, a field that only ever receives lower-case values (FIELD, greatest fixpoint over all stores), an id produced by a case-insensitive parseMapping call, a range key of another name-keyed map, or a parameter all of whose callers pass lower-case values. CASEARG (shared with C13) fixes which YAML mappings fold case.",
+		Explanation: "Decides a two-point lattice (lower-case / unknown) on strings: every key stored into (KEYW) or used to look up (KEYR) a map whose keys are case-insensitive names (26 map types: ObjectType.Props, context and function tables, AST maps, action/workflow metadata, untrusted-input tree, job graph) is provably lower-case - a constant equal to its lower-casing, a strings.ToLower result, a field that only ever receives lower-case values (FIELD, greatest fixpoint over all stores), an id produced by a case-insensitive parseMapping call, a range key of another name-keyed map, or a parameter all of whose callers pass lower-case values. CASEARG (shared with C13) fixes which YAML mappings fold case. (SELFKEY) no map decoded from external data is read with a transformed copy of the key (directly or through a slice of collected keys).",
 		NotDecided:  "messages compared modulo letter case; names compared by other means than map lookup (strings.EqualFold sites are not enumerated); keywords true/false/null",
 		Assumptions: commonAssumptions,
 	},
@@ -61,7 +61,7 @@ var propSpecs = []PropSpec{
 	},
 	{
 		ID:          "C10",
-		Rules:       []string{"C10.COW", "C10.IMM", "C10.LOCK", "C10.CONF", "C10.CAP", "C10.INST", "C10.PREFIX", "C10.SIB", "C10.PERFILE", "C02.CHAN", "C10.AT", "C10.CACHEKEY"},
+		Rules:       []string{"C10.COW", "C10.IMM", "C10.LOCK", "C10.CONF", "C10.CAP", "C10.INST", "C10.PREFIX", "C10.SIB", "C10.PERFILE", "C02.CHAN", "C10.AT", "C10.CACHEKEY", "C02.FRESHCACHE"},
 		Explanation: "Decides the sharing discipline of multi-file runs: (COW) every write through ExprSemanticsChecker.vars is dominated by the copy of the table (and by the deep copy of github for nested writes), the copy functions install fresh maps and every DeepCopy copies its components deeply; (IMM) no mutation site reachable from the per-file check acts on data flowing from a package-level table or the shared Config; (LOCK) every access to the cache maps shared by files happens between Lock and Unlock of its mutex; (CONF) functions that are not thread-safe are unreachable from the goroutines; (CAP) goroutine bodies capture no loop variable; (INST) rules are created per file inside check; (PREFIX) project containment is separator-aware; (SIB) the caches handed to check belong to the project handed to check. (PERFILE) the per-file loops of LintFiles carry only counters and result slices; (AT) Projects.At answers only after the file system was consulted for this very path and reuses a remembered project only when its root equals the root found; (CACHEKEY) the per-repository cache tables are keyed by the root directory as is; (CHAN) no result is received from a channel.",
 		NotDecided:  "absence of all data races (no happens-before model of third-party code); LintFiles == LintFile result equality; agreement of the two derivations of a reusable workflow's interface is decided under C14.SIB",
 		Assumptions: commonAssumptions,
@@ -82,8 +82,8 @@ var propSpecs = []PropSpec{
 	},
 	{
 		ID:          "C15",
-		Rules:       []string{"C15.ROOT", "C15.ABSJOIN", "C15.PURE", "C15.EXIT", "C15.PAT", "C20.ERR", "C15.CONFPAT"},
-		Explanation: "Decides the structural clauses of filtering and exit status: (ROOT) the path handed to Config.PathConfigs comes from filepath.Rel(<project root>, ...) and the raw cwd-relative path is only used without a project or when Rel fails; (ABSJOIN) a path is joined to the working directory only under !filepath.IsAbs; (PURE) filterErrors mutates nothing, prints nothing, sorts nothing and returns its input or a slice built from the input's own elements in iteration order, consulting both pattern sets; (EXIT) the (condition -> constant) table of Command.Main's returns; (PAT) every ignore regexp is compiled from one element of the option list and matched against the message alone; (ERR, shared with C20) formatter errors are propagated by LintFiles, LintFile and Lint alike. (CONFPAT) every ignore pattern of the configuration file is compiled on its own from its own sequence element.",
+		Rules:       []string{"C15.ROOT", "C15.ABSJOIN", "C15.PURE", "C15.EXIT", "C15.PAT", "C20.ERR", "C15.CONFPAT", "C15.RETALL"},
+		Explanation: "Decides the structural clauses of filtering and exit status: (ROOT) the path handed to Config.PathConfigs comes from filepath.Rel(<project root>, ...) and the raw cwd-relative path is only used without a project or when Rel fails; (ABSJOIN) a path is joined to the working directory only under !filepath.IsAbs; (PURE) filterErrors mutates nothing, prints nothing, sorts nothing and returns its input or a slice built from the input's own elements in iteration order, consulting both pattern sets; (EXIT) the (condition -> constant) table of Command.Main's returns; (PAT) every ignore regexp is compiled from one element of the option list and matched against the message alone; (ERR, shared with C20) formatter errors are propagated by LintFiles, LintFile and Lint alike. (CONFPAT) every ignore pattern of the configuration file is compiled on its own from its own sequence element. (RETALL) every successful return of Lint, LintFile and LintFiles hands back the diagnostics of all files (the exit status is derived from them).",
 		NotDecided:  "glob and regexp matching semantics; how paths are spelled on the command line beyond the IsAbs/Rel structure",
 		Assumptions: commonAssumptions,
 	},
@@ -103,8 +103,8 @@ var propSpecs = []PropSpec{
 	},
 	{
 		ID:          "C17",
-		Rules:       []string{"C17.MONO", "C17.ARG", "C17.CONSUME", "C17.COL", "C17.TERM", "C17.STATELESS"},
-		Explanation: "Recogniser == documentation is not decidable here; decided are: (MONO) no error emission of the shared validator is control-dependent on isRef being false, and the path-only pre-checks only test characters refs reject: ref-accepted implies path-accepted; (ARG) the character argument of every unexpected/invalidRefChar call is the variable holding the consumed rune, the rune constant of an enclosing case, or EOF - never a fresh Peek(); (CONSUME) every scan.Next() either consumes a character known from look-ahead, or its result is dispatched by a switch with cases for both line-break characters, or follows an already reported error; (COL) the error column comes from scanner.Position.Column; (TERM) each call of validateNext consumes a character and returns true only when the look-ahead is not EOF, the [...] loop consumes per iteration. (STATELESS) every non-empty filter value is validated unconditionally by the validator of its filter kind (branches/tags: ref, paths: path).",
+		Rules:       []string{"C17.MONO", "C17.ARG", "C17.CONSUME", "C17.COL", "C17.TERM", "C17.STATELESS", "C17.WHOLE"},
+		Explanation: "Recogniser == documentation is not decidable here; decided are: (MONO) no error emission of the shared validator is control-dependent on isRef being false, and the path-only pre-checks only test characters refs reject: ref-accepted implies path-accepted; (ARG) the character argument of every unexpected/invalidRefChar call is the variable holding the consumed rune, the rune constant of an enclosing case, or EOF - never a fresh Peek(); (CONSUME) every scan.Next() either consumes a character known from look-ahead, or its result is dispatched by a switch with cases for both line-break characters, or follows an already reported error; (COL) the error column comes from scanner.Position.Column; (TERM) each call of validateNext consumes a character and returns true only when the look-ahead is not EOF, the [...] loop consumes per iteration. (STATELESS) every non-empty filter value is validated unconditionally by the validator of its filter kind (branches/tags: ref, paths: path). (WHOLE) the scanner is initialised once from the pattern parameter itself.",
 		NotDecided:  "which strings are reported (language of the recogniser), message texts, the column arithmetic of rule_glob",
 		Assumptions: commonAssumptions,
 	},
@@ -145,8 +145,8 @@ var propSpecs = []PropSpec{
 	},
 	{
 		ID:          "C07",
-		Rules:       []string{"C07.CONV", "C07.ACCUM", "C07.QUOTE", "C07.FIELDS", "C07.ARGS", "C07.TOKEN", "C07.ERRTOK", "C07.LEXPOS", "C07.ORIGIN", "C17.COL", "C07.ARGPOS"},
-		Explanation: "Exactness of positions is decided as symbolic position arithmetic: integer values are normalised to linear forms over their sources (fields, parameters, loop-carried variables). (CONV) the placeholder-to-file mapping is base + value - 1 for line and column; (ACCUM) in the scan over the placeholders of a scalar the column handed to the parser is base + offset + bytes cut, the offset advances around the loop by exactly the bytes sliced off the remaining text, the scan starts at offset 0, `${{` is recorded three columns before the expression, and text/position/quoting of one scalar travel together; (QUOTE) every column base derived from a scalar's position is Pos.Col plus one exactly when the scalar is quoted, decided once outside loops (expression scan, bare `if:` conditions, glob errors on a per-error copy); (FIELDS) every integer stored into a line/column/offset field is computed from sources of the same class; (ARGS) arguments named like line/column are passed for parameters of the same class at every call; (TOKEN) each node is positioned at its own token or its leftmost operand; (ERRTOK) no parser error is recorded after the look-ahead was advanced without a new look-ahead test, and nothing is consumed through the parser between the end of the expression and the left-over error; (LEXPOS) the start of a token is moved past every skipped white space and tokens carry the recorded start; (ORIGIN) no position object has a constant or missing component and none is nil at a diagnostic; (COL, shared with C17) glob error columns come from the scanner. (ARGPOS) an argument type error is positioned at the argument whose type was tested (equal index forms, through the re-slicing of the variadic rest).",
+		Rules:       []string{"C07.CONV", "C07.ACCUM", "C07.QUOTE", "C07.FIELDS", "C07.ARGS", "C07.TOKEN", "C07.ERRTOK", "C07.LEXPOS", "C07.ORIGIN", "C17.COL", "C07.ARGPOS", "C07.TEXTPOS", "C17.WHOLE", "C07.TEXTFROZEN"},
+		Explanation: "Exactness of positions is decided as symbolic position arithmetic: integer values are normalised to linear forms over their sources (fields, parameters, loop-carried variables). (CONV) the placeholder-to-file mapping is base + value - 1 for line and column; (ACCUM) in the scan over the placeholders of a scalar the column handed to the parser is base + offset + bytes cut, the offset advances around the loop by exactly the bytes sliced off the remaining text, the scan starts at offset 0, `${{` is recorded three columns before the expression, and text/position/quoting of one scalar travel together; (QUOTE) every column base derived from a scalar's position is Pos.Col plus one exactly when the scalar is quoted, decided once outside loops (expression scan, bare `if:` conditions, glob errors on a per-error copy); (FIELDS) every integer stored into a line/column/offset field is computed from sources of the same class; (ARGS) arguments named like line/column are passed for parameters of the same class at every call; (TOKEN) each node is positioned at its own token or its leftmost operand; (ERRTOK) no parser error is recorded after the look-ahead was advanced without a new look-ahead test, and nothing is consumed through the parser between the end of the expression and the left-over error; (LEXPOS) the start of a token is moved past every skipped white space and tokens carry the recorded start; (ORIGIN) no position object has a constant or missing component and none is nil at a diagnostic; (COL, shared with C17) glob error columns come from the scanner. (ARGPOS) an argument type error is positioned at the argument whose type was tested (equal index forms, through the re-slicing of the variadic rest). (TEXTPOS/TEXTFROZEN) a scalar node holds the text exactly as written with the position of the same YAML node, and no field of an existing node is overwritten; (WHOLE, shared with C17) the glob scanner reads the whole pattern parameter.",
 		NotDecided:  "YAML scalars with escapes, multi-line or non-ASCII text (bytes vs columns); positions computed by go-yaml; the 1 <= line <= #lines bound",
 		Assumptions: commonAssumptions,
 	},
